@@ -5,7 +5,9 @@ every greedy-valid reference and with `primitive_with`.
 
 Scope.  EXACT ARITHMETIC ONLY: `K` a linearly ordered field whose `Num K` instance computes the field
 operations and has no NaN (`ExactLaws K`: `fieldNum K`, `fieldNumWith K sq`).  IEEE floats are not a
-field and reducibility of the average / weighted / Ward updates is false under rounding; the float
+field, and reducibility of the weighted update is false under rounding (for the clamped average / Ward
+updates of the repaired crate it follows from `OrderLaws`, `Lemmas/ChainIter.lean`, but the theorems
+of this file are stated against `ExactLaws` all the same); the float
 claim rests on the bit-exact correspondence run and the greedy-replay oracle.  Entry point
 `nnchain_with` (model `nnchainWith`), both build modes, every prior state, every valid matrix
 `2 ≤ n < 2^31`, `2·len = n(n−1)`, all five chain methods.
